@@ -747,6 +747,9 @@ def loop_specs(tier, seed):
                       note='C11: symbolic clock, delay and interval; several consecutive time-outs; cancellation by any key event'))
     S.append(LoopSpec('timer-chord', [dict(special2)], K('D', 'LEFTCTRL'), E=2 + d, T=0, B=1, W=4 + d, intr=0, late=False,
                       note='C11: two-key chord, one of its keys may be physically held and passed through'))
+    S.append(LoopSpec('timer-chord-mapped', [dict(frm=K('CAPSLOCK'), to=K('LEFTCTRL')), dict(frm=K('B'), to=K('B'), rep=sp(['LEFTCTRL', 'C']))],
+                      K('B', 'CAPSLOCK'), E=2 + d, T=0, B=1, W=4 + d, intr=0, late=False,
+                      note='C11: chord key held on the virtual keyboard as the output of a modifier-remapping'))
     S.append(LoopSpec('timer-swallowed', [dict(frm=K('CAPSLOCK'), to=[]), dict(frm=K('CAPSLOCK', 'J'), to=K('LEFT'), rep=sp(['LEFT']))],
                       K('CAPSLOCK', 'J', 'LEFT'), E=3, T=0, B=1, W=4, intr=0, late=False,
                       note='C11: key presses that the mapper swallows while a repeat is pending'))
@@ -923,8 +926,8 @@ CLAUSES = {
     'C20': 'a failure injected at the k-th driver call (register_poll, poll, next_keyboard, next_tablet, send; every k of every explored schedule) makes the loop return Err with that message and no write follows',
 }
 
-REL = {'C10': ('chunking', 'chunking-foreign', 'burst', 'chunking-long', 'tablet-repeat', 'timer', 'tablet', 'faults', 'timer-chord', 'timer-swallowed', 'tablet-layer'),
-       'C11': ('timer', 'timer-chord', 'timer-swallowed', 'tablet', 'faults', 'tablet-repeat'),
+REL = {'C10': ('chunking', 'chunking-foreign', 'burst', 'chunking-long', 'tablet-repeat', 'timer', 'tablet', 'faults', 'timer-chord', 'timer-chord-mapped', 'timer-swallowed', 'tablet-layer'),
+       'C11': ('timer', 'timer-chord', 'timer-chord-mapped', 'timer-swallowed', 'tablet', 'faults', 'tablet-repeat'),
        'C12': ('tablet', 'tablet-layer', 'faults', 'tablet-repeat'),
        'C20': ('faults',)}
 
